@@ -596,6 +596,9 @@ func replayC02(o *Obligation) (string, string, string, bool) {
 		"GetObjectType":         `d.GetObjectType(TypeDenotationUint32); d.GetObjectType(TypeDenotationByte)`,
 		"Skip":                  `d.Skip(3, ep)`,
 		"ReadNum":               `var v uint32; d.ReadNum(&v, ep); var w int64; d.ReadNum(&w, ep)`,
+		"ReadPayload":           `var out Serializable; d.ReadPayload(&out, DeSeriModeNoValidation, nil, func(ty uint32) (Serializable, error) { return &rpSeri{}, nil }, ep)`,
+		"ReadObject":            `var out Serializable; d.ReadObject(&out, DeSeriModeNoValidation, nil, TypeDenotationUint32, func(ty uint32) (Serializable, error) { return &rpSeri{}, nil }, ep); var o2 Serializable; d.ReadObject(&o2, DeSeriModeNoValidation, nil, TypeDenotationByte, func(ty uint32) (Serializable, error) { return &rpSeri{}, nil }, ep)`,
+		"readObject":            `var out Serializable; d.readObject(&out, DeSeriModeNoValidation, nil, TypeDenotationUint32, func(ty uint32) (Serializable, error) { return &rpSeri{}, nil }, ep)`,
 		"ReadSequenceOfObjects": `calls := 0; d.ReadSequenceOfObjects(func(b []byte) (int, error) { calls++; if calls > 100000 { return 0, errors.New("stop") }; return 0, nil }, DeSeriModePerformValidation, lt, &ArrayRules{Max: 4}, ep); if calls > 4 { t.Fatalf("REPLAY-VIOLATION ReadSequenceOfObjects invoked the item deserializer %d times although validation limits the collection to 4 elements (input %x, lenType %d)", calls, in, lt) }`,
 	}[m[1]]
 	if call == "" {
@@ -615,8 +618,22 @@ var _ = errors.New
 var _ = big.NewInt
 var _ time.Time
 
+// a Serializable that consumes up to 2 bytes of what it is given
+type rpSeri struct{}
+
+func (*rpSeri) MarshalJSON() ([]byte, error) { return []byte("{}"), nil }
+func (*rpSeri) UnmarshalJSON([]byte) error   { return nil }
+func (*rpSeri) Deserialize(data []byte, _ DeSerializationMode, _ interface{}) (int, error) {
+	if len(data) < 2 {
+		return len(data), nil
+	}
+	return 2, nil
+}
+func (*rpSeri) Serialize(DeSerializationMode, interface{}) ([]byte, error) { return nil, nil }
+
 func TestVerifReplay(t *testing.T) {
 	var inputs [][]byte
+	inputs = append(inputs, []byte{1, 0, 0, 0, 9}, []byte{2, 0, 0, 0, 9, 9}, []byte{3, 0, 0, 0, 9, 9, 9}, []byte{2, 0, 0, 0, 9, 9, 9, 9})
 	pat := []byte{0xff, 0xff, 0xff, 0x3f, 0x01, 0x00, 0x02, 0x7f, 0x80, 0xfe, 1, 2, 3, 4, 5, 6, 7, 8, 9, 10, 11, 12, 13, 14, 15, 16, 17, 18, 19, 20, 21, 22, 23, 24, 25, 26, 27, 28, 29, 30}
 	for n := 0; n <= len(pat); n++ {
 		inputs = append(inputs, pat[:n:n])
